@@ -102,6 +102,15 @@ def build_graph(c, g):
         ref = lambda v: (gauss_ref(v['y1'], mv(A2, v['x']), 0.5) + gauss_ref(v['y2'], mv(B2, v['x']), 1 / 3.0)
                          + gauss_ref(v['x'], [1, 1], 2.0))
         return [y1, y2, x], vals, ref
+    if g == 'e':
+        # a variable that is independent of everything that gets fixed (the joint reduces to a plain distribution)
+        A = M.LinearModel(A2)
+        x = D.Gaussian(np.zeros(2), cov=2.0, name='x')
+        y = D.Gaussian(A(x), cov=0.5, name='y', geometry=2)
+        w = D.Gaussian(np.ones(2), cov=3.0, name='w')
+        vals = {'y': c.reals('vy', 2), 'x': c.reals('vx', 2), 'w': c.reals('vw', 2)}
+        ref = lambda v: gauss_ref(v['y'], mv(A2, v['x']), 0.5) + gauss_ref(v['x'], [0, 0], 2.0) + gauss_ref(v['w'], [1, 1], 3.0)
+        return [y, x, w], vals, ref
     if g == 'd':
         # hyper-parameters enter the mean AND the spread through two-argument callables
         x = D.Gaussian(np.zeros(2), cov=1.0, name='x')
@@ -196,8 +205,8 @@ def ordered_partitions(items, max_stages):
 
 def configs(tier, seed=0):
     out = []
-    graphs = ['a', 'b', 'c', 'd', 'b-gmrf', 'b-lmrf']
-    nvars = {'a': 2, 'b': 4, 'c': 3, 'd': 5, 'b-gmrf': 4, 'b-lmrf': 3}
+    graphs = ['a', 'b', 'c', 'd', 'e', 'b-gmrf', 'b-lmrf']
+    nvars = {'a': 2, 'b': 4, 'c': 3, 'd': 5, 'e': 3, 'b-gmrf': 4, 'b-lmrf': 3}
     stages = 2 if tier == 'quick' else 3
     for g in graphs:
         out.append({'key': 'graph/%s/programs' % g, 'kind': 'programs', 'graph': g, 'stages': stages,
